@@ -8,7 +8,6 @@ import (
 	"unicode/utf8"
 
 	zed "github.com/brimdata/super"
-	"github.com/brimdata/super/zio/jsonio"
 	"golang.org/x/text/unicode/norm"
 	. "zvh/hx"
 )
@@ -189,20 +188,8 @@ func clsString(cls map[string]bool) string {
 }
 
 func readJSON(doc string) (vals []zed.Value, zctx *zed.Context, err error) {
-	zctx = zed.NewContext()
-	err = guarded(func() error {
-		r := jsonio.NewReader(zctx, strings.NewReader(doc))
-		for {
-			v, e := r.Read()
-			if e != nil {
-				return e
-			}
-			if v == nil {
-				return nil
-			}
-			vals = append(vals, v.Copy())
-		}
-	})
+	vals, zctx, err = readJSONFrom(strings.NewReader(doc))
+	deliveryJSON(doc, zctx, vals, err)
 	return
 }
 
